@@ -1269,13 +1269,15 @@ func gen(r *common.Rng, k, total int) tcase {
 
 func main() {
 	a := common.ParseArgs()
-	var cases []tcase
+	var jobs []func() string
 	if a.Extra["stdin"] != "" {
 		sc := bufio.NewScanner(os.Stdin)
 		sc.Buffer(make([]byte, 1<<20), 1<<24)
 		for sc.Scan() {
-			if c, ok := parse(sc.Text()); ok {
-				cases = append(cases, c)
+			if ac, ok := parseAux(sc.Text()); ok {
+				jobs = append(jobs, func() string { return runAux(ac) })
+			} else if c, ok := parse(sc.Text()); ok {
+				jobs = append(jobs, func() string { return run(c) })
 			}
 		}
 	} else {
@@ -1291,12 +1293,18 @@ func main() {
 			if a.Only >= 0 && k != a.Only {
 				continue
 			}
-			cases = append(cases, gen(root.Fork(uint64(k)), k, total))
+			if k%8 == 5 {
+				ac := genAux(root.Fork(uint64(k)))
+				jobs = append(jobs, func() string { return runAux(ac) })
+				continue
+			}
+			c := gen(root.Fork(uint64(k)), k, total)
+			jobs = append(jobs, func() string { return run(c) })
 		}
 	}
 	go heartbeat()
 	// cases are independent (own daemon, own connector): a small worker pool, output in case order
-	outs := make([]string, len(cases))
+	outs := make([]string, len(jobs))
 	workers := 6
 	if w, err := strconv.Atoi(os.Getenv("VERIF_C16_WORKERS")); err == nil && w > 0 {
 		workers = w
@@ -1308,11 +1316,11 @@ func main() {
 		go func() {
 			defer wg.Done()
 			for k := range next {
-				outs[k] = run(cases[k])
+				outs[k] = jobs[k]()
 			}
 		}()
 	}
-	for k := range cases {
+	for k := range jobs {
 		next <- k
 	}
 	close(next)
